@@ -95,9 +95,20 @@ class Program:
     def adt(self, path):
         return self.adts.get(path)
 
+    CORE_ENUMS = {
+        "core::option::Option": {0: "None", 1: "Some"},
+        "core::result::Result": {0: "Ok", 1: "Err"},
+        "core::ops::control_flow::ControlFlow": {0: "Continue", 1: "Break"},
+        "core::ops::ControlFlow": {0: "Continue", 1: "Break"},
+        "core::cmp::Ordering": {-1: "Less", 255: "Less", 0: "Equal", 1: "Greater"},
+    }
+
     def variant_name(self, adt_ty, discr):
         a = self.adts.get(strip_ty(adt_ty))
         if not a:
+            ce = self.CORE_ENUMS.get(strip_ty(adt_ty))
+            if ce:
+                return ce.get(discr)
             return None
         for v in a["variants"]:
             if v.get("discr") == discr:
